@@ -168,6 +168,11 @@ def make_plan(seed: int, tier: str = "quick") -> dict:
     else:
         opcode = "sites" if r < 0.3 else False
     cache_size = rng.choice([1, 2, 8]) if rng.random() < 0.25 else None
+    # "warm process" knob: many other types compiled before the threads start, so that bounded
+    # memos are at capacity and eviction / overflow paths run (the racing types stay fresh)
+    prefill = 0
+    if rng.random() < 0.08:
+        prefill = rng.choice([140, 300])
     fault = None
     if rng.random() < 0.3:
         t = rng.randrange(n_threads)
@@ -183,6 +188,7 @@ def make_plan(seed: int, tier: str = "quick") -> dict:
         "strategy": strat,
         "opcode": opcode,
         "cache_size": cache_size,
+        "prefill": prefill,
         "fault": fault,
     }
 
@@ -277,6 +283,19 @@ def _apply_knobs(plan: dict):
 
         cache.set_size(plan["cache_size"])
     sys.setrecursionlimit(400)  # keep runaway recursion cheap and uniform
+    n = plan.get("prefill") or 0
+    if n:
+        import apischema
+
+        used = {op[1] for th in plan["threads"] for op in th}
+        used_groups = {g for g, names in pool.GROUPS.items() if used & set(names)}
+        others = [t for g in sorted(pool.GROUPS) if g not in used_groups for t in pool.GROUPS[g]]
+        for t in others[:n]:
+            for fn in (apischema.deserialization_method, apischema.serialization_method):
+                try:
+                    fn(pool.TYPES[t])
+                except Exception:
+                    pass
 
 
 def _arm_for(plan: dict, t: int, j: int, faults: bool):
